@@ -8,7 +8,7 @@ CONSTANTS
   MaxText = 2
   Ops = {"abort", "set", "log"}
   LogMax = 256
-  AsFound = {"fwrite", "abort", "habort", "lmissing", "rabort", "vlognul", "vlogempty"}
+  AsFound = {"fwrite", "abort", "habort", "lmissing", "rabort", "vlognul", "vlogempty", "endrst", "rawhead"}
 VIEW MCView
 CHECK_DEADLOCK FALSE
 INVARIANTS TypeOK IdleClean Engaged
